@@ -219,7 +219,11 @@ func runVariant(p rparams.Params) out {
 				id := fmt.Sprintf("%d.%d", t, i)
 				tgt := actor.NewPID(addrB, fmt.Sprintf("t/%d", 1+(t+i)%p.Targets))
 				if p.WithSender && i%2 == 1 {
-					ea.SendWithSender(tgt, tm(id), actor.NewPID(addrA, fmt.Sprintf("x/%d", t)))
+					snd := actor.NewPID(addrA, fmt.Sprintf("x/%d", t))
+					if p.SelfSender {
+						snd = actor.NewPID(tgt.Address, tgt.ID)
+					}
+					ea.SendWithSender(tgt, tm(id), snd)
 				} else {
 					ea.Send(tgt, tm(id))
 				}
@@ -259,6 +263,30 @@ func runVariant(p rparams.Params) out {
 	if !p.Down() {
 		if !o.wait(func() bool { return len(o.deliveries) >= nEarly }) {
 			return fail("early messages not delivered")
+		}
+		if p.Restart {
+			// the peer goes away: A notices the lost connection; then a new node comes up on the address
+			rb.Stop().Wait()
+			if !o.wait(func() bool { return o.unreachable >= 1 }) {
+				return fail("the lost connection was never reported")
+			}
+			if err := startB(); err != nil {
+				return out{Kind: "record", Variant: p.String(), Detail: "engine B (second incarnation): " + err.Error()}
+			}
+			for i := 0; i < p.Late; i++ {
+				id := fmt.Sprintf("late%d", i)
+				ea.Send(actor.NewPID(addrB, "t/1"), tm(id))
+				if !o.wait(func() bool {
+					for _, d := range o.deliveries {
+						if d.ID == id {
+							return true
+						}
+					}
+					return false
+				}) {
+					return fail("a message sent after the peer came back was not delivered")
+				}
+			}
 		}
 	} else {
 		// the whole first connection attempt fails: one unreachable event, every early message dead-lettered
